@@ -576,6 +576,29 @@ func genHistory(t *rapid.T, spec *GenSpec) (*Program, int) {
 		g.model.Apply(w)
 		p.Ops = append(p.Ops, Op{Kind: "batch", B: w}, Op{Kind: "mstep"}, Op{Kind: "mstep"})
 	}
+	if spec.Children && !spec.NoChildOnly && len(p.Ops) == 0 && chance(t, "childpile", 5) {
+		// shape that leaves an unread, unsorted child segment at the bottom of a
+		// stack: deferred sorting, batches of sharply decreasing size for one
+		// child within one merger cycle (the merger keeps the big one as it is),
+		// keys added in descending order
+		p.Cfg.DeferredSort = true
+		name := rapid.SampledFrom(childPool[:3]).Draw(t, "pilechild")
+		n := rapid.IntRange(16, 80).Draw(t, "pilen")
+		base := 0
+		for _, sz := range []int{n, n / 6, 1} {
+			g.batchNo++
+			cb := &Batch{}
+			for i := sz - 1; i >= 0; i-- {
+				cb.Ops = append(cb.Ops, KV{Op: OpSet, K: []byte(fmt.Sprintf("k%04d", base+i)), V: []byte(fmt.Sprintf("p%d.", g.batchNo))})
+			}
+			base += sz + 3
+			b := &Batch{Children: []ChildBatch{{Name: name, B: cb}}}
+			g.model.Apply(b)
+			p.Ops = append(p.Ops, Op{Kind: "batch", B: b})
+		}
+		g.everKey = true
+		p.Ops = append(p.Ops, Op{Kind: "mstep"})
+	}
 	lower := p.Cfg.Backing != "mem"
 	nextID := 1
 	var snaps, iters []int
@@ -621,7 +644,17 @@ func genHistory(t *rapid.T, spec *GenSpec) (*Program, int) {
 		if spec.PersistNil && p.Cfg.Backing == "store" {
 			wPNil = 4
 		}
-		switch pick(t, "op", 45, 24, wHold, wRel, wReopen, wSnap, wRead, wCloseS, wIter, wIterStep, wSSnap, wEarly, wPNil) {
+		wSPrev := 0
+		if wSSnap > 0 && len(snaps) > 0 && len(snaps) < 4 {
+			wSPrev = 3
+		}
+		switch pick(t, "op", 45, 24, wHold, wRel, wReopen, wSnap, wRead, wCloseS, wIter, wIterStep, wSSnap, wEarly, wPNil, wSPrev) {
+		case 13:
+			// Store.SnapshotPrevious of an open store snapshot (no-op for other
+			// kinds of handle): a second handle, the first one stays open
+			snaps = append(snaps, nextID)
+			p.Ops = append(p.Ops, Op{Kind: "sprev", ID: nextID, Snap: rapid.SampledFrom(snaps[:len(snaps)-1]).Draw(t, "prevof")})
+			nextID++
 		case 0:
 			p.Ops = append(p.Ops, Op{Kind: "batch", B: g.nextBatch(t)})
 		case 1:
